@@ -19,6 +19,7 @@ type srcSpec struct {
 	EOFWith  bool
 	FailAt   int
 	FailWith bool
+	FailErr  int
 	NoCloser bool
 }
 
@@ -36,10 +37,11 @@ func checkMulti(c multiCase) string {
 	var srcs []*vk.ScriptReader
 	var want []byte
 	failed := false
+	var wantErr error
 	firstUnfinished := len(c.Srcs)
 	for i, s := range c.Srcs {
 		d := data(s.Len, byte(i+1)*0x11)
-		sr := &vk.ScriptReader{Data: d, Chunks: s.Chunks, EOFWith: s.EOFWith, FailAt: s.FailAt, FailWith: s.FailWith}
+		sr := &vk.ScriptReader{Data: d, Chunks: s.Chunks, EOFWith: s.EOFWith, FailAt: s.FailAt, FailWith: s.FailWith, Err: vk.FaultErrors[s.FailErr%len(vk.FaultErrors)]}
 		srcs = append(srcs, sr)
 		if s.NoCloser {
 			readers = append(readers, vk.ReaderOnly{R: sr})
@@ -50,6 +52,7 @@ func checkMulti(c multiCase) string {
 			if s.FailAt >= 0 && s.FailAt <= s.Len {
 				want = append(want, d[:s.FailAt]...)
 				failed = true
+				wantErr = vk.FaultErrors[s.FailErr%len(vk.FaultErrors)]
 				firstUnfinished = i
 			} else {
 				want = append(want, d...)
@@ -71,8 +74,8 @@ func checkMulti(c multiCase) string {
 		return fmt.Sprintf("output differs from the concatenation: got %d bytes %x want %d bytes %x", len(out), trunc(out), len(want), trunc(want))
 	}
 	if failed {
-		if !errors.Is(err, vk.ErrInjected) {
-			return fmt.Sprintf("a source failed but the stream reported %v", err)
+		if !errors.Is(err, wantErr) {
+			return fmt.Sprintf("a source failed with %v but the stream reported %v", wantErr, err)
 		}
 	} else if err != nil {
 		return fmt.Sprintf("unexpected error %v", err)
@@ -130,6 +133,7 @@ func genSrc(rt *rapid.T, label string, allowFault bool) srcSpec {
 	if allowFault && rapid.IntRange(0, 7).Draw(rt, label+".fault") == 0 {
 		s.FailAt = rapid.IntRange(0, s.Len).Draw(rt, label+".failAt")
 		s.FailWith = rapid.Bool().Draw(rt, label+".failWith")
+		s.FailErr = rapid.IntRange(0, len(vk.FaultErrors)-1).Draw(rt, label+".failErr")
 	}
 	return s
 }
@@ -255,7 +259,8 @@ func (c teeCase) String() string {
 
 func checkTee(c teeCase) string {
 	d := data(c.Src.Len, 0x33)
-	src := &vk.ScriptReader{Data: d, Chunks: c.Src.Chunks, EOFWith: c.Src.EOFWith, FailAt: c.Src.FailAt, FailWith: c.Src.FailWith}
+	srcErr := vk.FaultErrors[c.Src.FailErr%len(vk.FaultErrors)]
+	src := &vk.ScriptReader{Data: d, Chunks: c.Src.Chunks, EOFWith: c.Src.EOFWith, FailAt: c.Src.FailAt, FailWith: c.Src.FailWith, Err: srcErr}
 	var r io.Reader = src
 	if c.Src.NoCloser {
 		r = vk.ReaderOnly{R: src}
@@ -291,8 +296,8 @@ func checkTee(c teeCase) string {
 			return fmt.Sprintf("writer got %d bytes, source has %d", rw.buf.Len(), len(d))
 		}
 	case !wFault && srcFault:
-		if !errors.Is(err, vk.ErrInjected) {
-			return fmt.Sprintf("source failed but stream reported %v", err)
+		if !errors.Is(err, srcErr) {
+			return fmt.Sprintf("source failed with %v but stream reported %v", srcErr, err)
 		}
 		if !bytes.Equal(out, avail) || !bytes.Equal(rw.buf.Bytes(), avail) {
 			return fmt.Sprintf("bytes before the source error: consumer %d writer %d want %d", len(out), rw.buf.Len(), len(avail))
